@@ -108,14 +108,18 @@ Definition stored (r : Res (list row)) : list (Z * list Z) :=
 Theorem C20_refuted_insert_reordered :
   guard_q 60 sc2 rows2 [] SelAll None = true /\ guard_ins sc2 SelAll 60 sc2 [] None = true
   /\ insert_list_reordered sc2 (Some ["Epoch"; "W"; "V"]) = true
-  /\ (exists t, materialize_q 60 sc2 rows2 [] SelAll 0 = Ok t
-        /\ stored (insert_into 60 sc2 [] ["Epoch"; "W"; "V"] t) = [(0, [10; 0]); (1, [11; 1]); (2, [12; 2]); (3, [13; 3])])
+  /\ stored (do t <- materialize_q 60 sc2 rows2 [] SelAll 0; insert_into 60 sc2 [] ["Epoch"; "W"; "V"] t)
+     = [(0, [10; 0]); (1, [11; 1]); (2, [12; 2]); (3, [13; 3])]
   /\ stored (Ok (spec_insert 60 sc2 [] (spec_q sc2 rows2 [] SelAll None))) = [(0, [0; 10]); (1, [1; 11]); (2, [2; 12]); (3, [3; 13])].
-Proof. vm_compute. repeat split; try reflexivity. eexists. split; reflexivity. Qed.
+Proof. vm_compute. repeat split; reflexivity. Qed.
 
 Theorem C20_refuted_select : ~ C20_full_select.
 Proof.
-  intros H. destruct (H 60 sc2 rows2 [] sel_collide None eq_refl eq_refl eq_refl) as (t & E & Hv & _).
+  intros H.
+  assert (G1 : guard 60 sc2 rows2 [] = true) by (vm_compute; reflexivity).
+  assert (G2 : fold_distinct (epoch_name :: map fst sc2) = true) by (vm_compute; reflexivity).
+  assert (G3 : sel_wf sc2 sel_collide = true) by (vm_compute; reflexivity).
+  destruct (H 60 sc2 rows2 [] sel_collide None G1 G2 G3) as (t & E & Hv & _).
   vm_compute in E. inversion E; subst t. clear E.
   assert (Hne : spec_rows sc2 rows2 [] None <> []) by (vm_compute; discriminate).
   specialize (Hv Hne). apply (f_equal ints) in Hv. vm_compute in Hv. discriminate Hv.
@@ -127,7 +131,9 @@ Proof.
   intros H.
   assert (E : exists t, materialize_q 60 sc2 rows2 [] SelAll (lim_int None) = Ok t) by (vm_compute; eexists; reflexivity).
   destruct E as [t E].
-  specialize (H 60 sc2 rows2 [] SelAll None 60 sc2 [] ["Epoch"; "W"; "V"] t eq_refl eq_refl).
+  assert (G1 : guard_q 60 sc2 rows2 [] SelAll None = true) by (vm_compute; reflexivity).
+  assert (G2 : guard_ins sc2 SelAll 60 sc2 [] None = true) by (vm_compute; reflexivity).
+  specialize (H 60 sc2 rows2 [] SelAll None 60 sc2 [] ["Epoch"; "W"; "V"] t G1 G2).
   assert (H1 : forall n, In n ["Epoch"; "W"; "V"] <-> In n (epoch_name :: map fst sc2)).
   { intros n. cbn. tauto. }
   assert (H2 : NoDup ["Epoch"; "W"; "V"]).
@@ -146,6 +152,6 @@ Example C20_nonvacuous :
   guard_q 60 sc2 rows2 ps_nv sel_nv (Some 2%nat) = true
   /\ guard_ins sc2 sel_nv 300 tsc_nv tstore_nv None = true
   /\ res_view (materialize_q 60 sc2 rows2 ps_nv sel_nv 2) = [("Epoch", [base + 60; base + 120]); ("px", [11; 12]); ("V", [1; 2])]
-  /\ (exists t, materialize_q 60 sc2 rows2 ps_nv sel_nv 2 = Ok t
-        /\ stored (insert_into 300 tsc_nv tstore_nv (epoch_name :: map fst tsc_nv) t) = [(-5, [7; 70]); (0, [2; 12])]).
-Proof. vm_compute. repeat split; try reflexivity. eexists. split; reflexivity. Qed.
+  /\ stored (do t <- materialize_q 60 sc2 rows2 ps_nv sel_nv 2; insert_into 300 tsc_nv tstore_nv (epoch_name :: map fst tsc_nv) t)
+     = [(-5, [7; 70]); (0, [2; 12])].
+Proof. vm_compute. repeat split; reflexivity. Qed.
